@@ -2,7 +2,7 @@
    agreement predicates used by the correspondence check. *)
 From Coq Require Import List Arith ZArith Lia Bool.
 Import ListNotations.
-From NS Require Import Base.Res Mem.Buffer Sort.Partition Sort.Select Sort.Bulk Run.RunBase.
+From NS Require Import Base.Res Base.SortDedup Mem.Buffer Sort.Partition Sort.Select Sort.Bulk Sort.SelectMany Run.RunBase.
 
 Inductive obs_part := OP_Panic (buf : list Z) | OP_Ok (k : Z) (buf : list Z).
 
@@ -16,5 +16,46 @@ Definition chk_partition (buf : list Z) (off len stride p : Z) (o : obs_part) : 
   match m_partition buf off len stride p, o with
   | Ok (k, b), OP_Ok k' b' => Z.eqb (nz k) k' && zlist_eqb b b'
   | Panic, OP_Panic b' => zlist_eqb buf b'
+  | _, _ => false
+  end.
+
+(* ---- selection: the pivot choices logged by the implementation are replayed ---- *)
+Definition script_pick (s : list Z) : nat -> nat -> nat := fun c _ => zn (nth c s 0%Z).
+
+Inductive obs_sel := OS_Panic (buf : list Z) | OS_Ok (v : Z) (buf : list Z) (ncalls : Z).
+
+Definition m_select (buf : list Z) (off len stride i : Z) (script : list Z)
+  : res (Z * list Z * nat) :=
+  let cs := cells (mkview off len stride) in
+  if idx_in_range i (zn len) then
+    l <- vread buf cs ;;
+    r <- select Z Z.leb (S (zn len)) (script_pick script) 0 l (zn i) ;;
+    let '(v, l', c) := r in Ok (v, vwrite buf cs l', c)
+  else Panic.
+
+Definition chk_select (buf : list Z) (off len stride i : Z) (script : list Z) (o : obs_sel) : bool :=
+  match m_select buf off len stride i script, o with
+  | Ok (v, b, c), OS_Ok v' b' c' => Z.eqb v v' && zlist_eqb b b' && Z.eqb (nz c) c'
+  | Panic, OS_Panic b' => zlist_eqb buf b'
+  | _, _ => false
+  end.
+
+Inductive obs_many := OM_Panic (buf : list Z) | OM_Ok (keys vals buf : list Z) (ncalls : Z).
+
+Definition m_select_many (buf : list Z) (off len stride : Z) (idxs : list Z) (script : list Z)
+  : res (list (nat * Z) * list Z * nat) :=
+  let cs := cells (mkview off len stride) in
+  if forallb (fun i => idx_in_range i (zn len)) idxs then
+    l <- vread buf cs ;;
+    r <- select_many Z Z.leb (S (zn len)) (script_pick script) l (map zn idxs) ;;
+    let '(kvs, l', c) := r in Ok (kvs, vwrite buf cs l', c)
+  else Panic.
+
+Definition chk_select_many (buf : list Z) (off len stride : Z) (idxs script : list Z) (o : obs_many) : bool :=
+  match m_select_many buf off len stride idxs script, o with
+  | Ok (kvs, b, c), OM_Ok ks vs b' c' =>
+    zlist_eqb (map (fun kv => nz (fst kv)) kvs) ks && zlist_eqb (map snd kvs) vs &&
+    zlist_eqb b b' && Z.eqb (nz c) c'
+  | Panic, OM_Panic b' => zlist_eqb buf b'
   | _, _ => false
   end.
